@@ -21,7 +21,7 @@ from harness import core, ffgen, systems
 META = {
     'level': 'proof',
     'technique': 'Coq proofs of sort-invariance of the residue listing and order-invariance of non-conflicting writes; metamorphic differential runs of the real pipeline (relabelling, definition order, histories)',
-    'gen_deps': [],
+    'gen_deps': ['Gen_parser'],
     'eval_deps': [],
     'level_text': ("Theorems in Coq (Props/C13.v): sorting any two listings of the same (residue id, block) pairs gives the same list, "
                    "hence the same molecule from add_blocks (C01), for every permutation of node keys and insertion order; link "
